@@ -206,6 +206,11 @@ namespace link_layer {
                     if ( !encryption_in_progress_ )
                         return;
 
+                    // PDUs that are still waiting to be handled, have been received unencrypted. Once the LL_START_ENC_REQ
+                    // is out, nothing that was received unencrypted may be taken as the response to it.
+                    if ( that().next_ll_l2cap_received().size != 0 )
+                        return;
+
                     auto out_buffer = that().allocate_ll_transmit_buffer( LinkLayer::maximum_ll_payload_size );
                     if ( out_buffer.empty() )
                         return;
